@@ -87,6 +87,9 @@ class DirHandler(BaseHandler):
                 # sent to this client, but not kept for the others.
                 self.cacheunusable = True
                 continue
+            if fileentry.incomplete:
+                # (as above: not a listing to keep for others)
+                self.cacheunusable = True
             self.prep_entriesappend(file, handler, fileentry)
 
     def prep_entriesappend(
